@@ -655,6 +655,46 @@ def r9_bitset_indexes_agree(ctx):
     r4d_bitset_arithmetic_agrees(ctx)
 
 
+def r2c_template_reads_in_bounds(ctx):
+    """parse_template_segments walks the literal's bytes through a raw pointer.  Every byte it *reads* (`*ptr.add(e)`) is
+    guarded by exactly `e < len` on the same expression: a missing guard reads past the literal, a guard that looks further
+    than the read (`i + 2 < len` for a read at i + 1) silently drops the last possible position - an escape or a placeholder at
+    the very end of the text is no longer recognised."""
+    fn = ctx.need("syntax::parser::Parser::parse_template_segments")
+    ctx.touch(fn)
+    n = 0
+    for c in fn.calls():
+        cal = c.callee or ""
+        if not (cal.endswith("::add") and ("ptr" in cal or "const_ptr" in cal or "mut_ptr" in cal)):
+            continue
+        if c.dest is None or c.dest["p"]:
+            continue
+        r = c.dest["l"]
+        derefs = False
+        for b in sorted(fn.live):
+            for st in fn.blocks[b]["s"]:
+                rv = st["rv"]
+                for key in ("a", "b"):
+                    o = rv.get(key)
+                    pl = (o.get("copy") or o.get("move")) if isinstance(o, dict) else None
+                    if pl is not None and pl["l"] == r and pl["p"] == ["*"]:
+                        derefs = True
+        if not derefs:
+            continue    # pointer used as the start of a sub-slice, not read here
+        n += 1
+        idx = ne(fn.expr(c.args[1], 6))
+        facts = cmp_facts(fn, c.block)
+        st_, fact = upper_bound(facts, idx, ("var", "len"))
+        ordn = sum(1 for r_ in ctx.records if r_["rule"] == ctx.rule and r_["instance"].startswith("template-read|%s#" % sh(idx)[:20]))
+        key = "template-read|%s#%d" % (sh(idx)[:20], ordn + 1)
+        if st_ == "ok":
+            ctx.ok(key, fn.where(c.block), "*ptr.add(%s) under %s(%s, %s)" % (sh(idx), fact[0], sh(fact[1])[:20], sh(fact[2])[:10]))
+        else:
+            near = [(o, sh(a), sh(b)) for o, a, b, S in facts if "len" in (sh(a), sh(b))][:3]
+            ctx.bad("template-read|%s|%s" % (sh(idx)[:20], "offbyone" if st_ == "offbyone" else "guard-mismatch"), fn.where(c.block), "the template parser reads the byte at `%s` without a dominating `%s < len` (bounds known here: %s): either the read can leave the literal, or the guard looks further than the read and the last position of the text is never examined (a `}}` or `{{` escape at the very end of a string stays doubled)" % (sh(idx), sh(idx), near))
+    ctx.floor("raw byte reads in the template parser", n, 8)
+
+
 BUMPERS_SEED = {"syntax::parser::Parser::bump"}
 
 
@@ -753,7 +793,7 @@ def r8_local_ranges_cover_ids(ctx):
         ctx.bad("locals-range|unrecognised|%s" % writes[0][1][:30], f.where(writes[0][0]), "cannot see that the local range covers the allocated id: `%s`" % writes[0][1])
 
 
-RULES = [("C07-R1", r1_cursor_discipline), ("C07-R2", r2_unchecked_reslicing), ("C07-R2b", r2b_byte_reads_in_bounds), ("C07-R5", r5_renderer_boundaries),
+RULES = [("C07-R1", r1_cursor_discipline), ("C07-R2", r2_unchecked_reslicing), ("C07-R2b", r2b_byte_reads_in_bounds), ("C07-R2c", r2c_template_reads_in_bounds), ("C07-R5", r5_renderer_boundaries),
          ("C07-R3", r3_parser_position_free), ("C07-R3b", r3b_parser_spans_are_ordered), ("C07-R4", r4_recovery_progress), ("C07-R8", r8_local_ranges_cover_ids), ("C07-R9", r9_bitset_indexes_agree)]
 
 EXPLANATION = (
@@ -770,6 +810,9 @@ EXPLANATION = (
 )
 EXPLANATION += (
     " R3b: every span built in the parser takes its start from a span obtained no later (dominance of the reads) than the one it takes its end from. R9 (= C03-R4d): the liveness bit-set helpers agree on the word width."
+)
+EXPLANATION += (
+    ' R2c: every byte parse_template_segments reads through its raw pointer (`*ptr.add(e)`) is guarded by exactly `e < len` on the same expression - a missing guard reads past the literal, a wider one drops the last position.'
 )
 ASSUMPTIONS = ["the input is a &str (valid UTF-8)", "memchr2 returns an index <= haystack length"]
 TRUSTED = ["rustc nightly MIR", "nsx exporter", "nsverif expression reconstruction / staleness computation"]
